@@ -440,7 +440,7 @@ def panic_site_audit(O):
     from . import dri, batteries as B
     from .refmodel import reference_battery
     # (scenarios that stop after a few rows on purpose are left out: the run-time judge reads a truncated run as non-termination)
-    bat = [s_ for s_ in runtime_battery() + B.control_battery() + B.protocol_battery() + B.fault_battery()[:40] if s_.max_rows >= 20]
+    bat = [s_ for s_ in runtime_battery() + B.control_battery() + B.protocol_battery() + B.vars_battery() + B.fault_battery()[:40] if s_.max_rows >= 20]
     R = dri.Rep({"family": "runtime"}, bat, runtime_judge)
     sites, nfn, npaths = panicaudit.collect(O)
     known = panicaudit.load_list()
